@@ -281,7 +281,7 @@ class VectorSpline2D(BaseGridder):
         else:
             weights = None
         warn_weighted_exact_solution(self, weights)
-        data = np.concatenate([i.ravel() for i in data])
+        data = np.concatenate([np.ravel(i) for i in data])
         if self.force_coords is None:
             self.force_coords = tuple(i.copy() for i in n_1d_arrays(coordinates, n=2))
         jacobian = self.jacobian(coordinates[:2], self.force_coords)
